@@ -23,7 +23,7 @@ CHECKS = {
         'technique': 'property-based testing (Hypothesis) + exhaustive enumeration of short streams; round-trip and truncation oracle over a scripted socket',
         'text': 'Generated message sequences are written by the real send_msg and read back by the real recv_msg through a scripted socket that '
                 'cuts the stream according to a generated plan; every composition of the 8-byte and 16-byte streams and every truncation offset '
-                'of them is enumerated, longer streams get boundary-relative cuts; the sending side is additionally run over transports whose send/sendmsg accept only q bytes per call (same byte stream required). The oracle is the round trip plus "truncation => ConnectionClosedError, '
+                'of them is enumerated, longer streams get boundary-relative cuts, payload sizes around multiples of 64 KiB are enumerated, the stream may end by FIN, RST, ETIMEDOUT or ECONNABORTED; the sending side is additionally run over transports whose send/sendmsg accept only q bytes per call (same byte stream required). The oracle is the round trip plus "truncation => ConnectionClosedError, '
                 'never a value, never a spin". Exploration, not proof: long streams are sampled.',
         'note': 'Trusts the socket model (recv returns 1..n bytes, b"" at EOF, ConnectionResetError on RST); real kernels are not in the loop.',
     },
@@ -54,8 +54,8 @@ CHECKS['C13'] = {
     'text': 'Generated graphs (plain classes, stdlib values, sharing, cycles) are round-tripped through remote_pickle and through pickle and compared by a '
             'canonical form that captures sharing; opt-in graphs are checked with remote=False; pickle/copy/deepcopy/ForkingPickler are checked to never see '
             'the flag after remote pickling; all 1-3 level inheritance chains over {no/plain/remote/**kwargs __getstate__, __reduce__} are enumerated '
-            'against a reference consistency rule.',
-    'note': 'Canonical form trusts repr() for opaque stdlib values; class menu is fixed (14 opt-in classes with twins, 12 plain classes incl. two that merely derive from the marker base).',
+            'against a reference consistency rule (an inconsistent class must be rejected on every attempt). Pickle protocols 0-5.',
+    'note': 'One open finding (protocols 0/1 with a false state, F-C13-5). Canonical form trusts repr() for opaque stdlib values; class menu is fixed (18 opt-in classes with twins - incl. keyword-only constructor arguments, a __setattr__ hook, decorated __getstate__ - and 12 plain classes incl. two that merely derive from the marker base).',
 }
 CHECKS['C14'] = {
     'engine': 'GRAPH', 'level': 'exploration', 'design_ref': 'DESIGN.md 3.4, 4 (C14)',
@@ -63,7 +63,7 @@ CHECKS['C14'] = {
     'text': 'Graphs with 0-10 opt-in instances from a generated grammar plus an enumerated shape grammar (siblings 1-3, containers, chains, shared, cycles) are dumped '
             'and loaded; the oracle is the call log (one remote __getstate__ per serialised opt-in instance) and equality of canonical shape with the standard '
             'round trip of a twin graph whose plain classes return the remote state.',
-    'note': 'Two open findings (sibling/shared/cyclic direct children; None remote state) are matched by structural trigger predicates computed from the input graph.',
+    'note': 'Three open findings (sibling/shared/cyclic direct children; None remote state; protocols 0/1 with a false state) are matched by structural trigger predicates computed from the input graph.',
 }
 CHECKS['C15'] = {
     'engine': 'GRAPH', 'level': 'exploration', 'design_ref': 'DESIGN.md 3.4, 4 (C15)',
@@ -115,14 +115,15 @@ CHECKS['C16'] = {
     'text': 'Stateful subclasses of all six classes assign generated values to user_state; endings return/raise/terminate@n; the parent reads user_state, has_error, '
             'result in a generated order; chains of up to three incarnations pass the state on by re-creation or restart(); a paused child lets the parent read '
             'during the alive phase. Late-phase cases hold the child right after it handed over its final result (process kinds) or the parent-side forwarding thread between '
-            'final result and final state (remote kinds) while the parent calls wait(t) and reads: init_state until something reported the worker dead, the last assigned value afterwards.',
+            'final result and final state (remote kinds) while the parent calls wait(t) and reads: init_state until something reported the worker dead, the last assigned value afterwards. '
+            'Also: restart() of a persistent worker that is still busy, and a process worker that returns something unsendable after assigning its state.',
     'note': 'For terminate endings any prefix of the assignments is accepted as final state (the exact cut is not pinned).',
 }
 CHECKS['C20'] = {
     'engine': 'WIRE', 'level': 'fault_enumeration', 'design_ref': 'DESIGN.md 3.3, 4 (C20)',
     'technique': 'fault enumeration over the server-to-client handshake (every byte offset of the control-address message, sampled offsets of the runtime-info message, FIN/RST, refusal, silence) with a scripted peer, plus child self-kill at enumerated pre-identity lines; hang-guard oracle + process census',
     'text': 'A scripted peer plays the server side of the RemoteWorker handshake and fails it at a generated point; process/remote children kill themselves at the '
-            'n-th traced line before reporting their identity; unknown context ids, unreachable ports and work that cannot be serialised (lock / socket in the arguments or initial state, lambda or local function as target) are tried. The constructor must return a worker with a '
+            'n-th traced line before reporting their identity; unknown context ids, unreachable ports and work that cannot be serialised (lock / socket in the arguments or initial state, lambda or local function as target), work that the server side cannot rebuild (with and without a context) and a main script that misbehaves when re-run in the backend child are tried. The constructor must return a worker with a '
             'foreign pid that answers wait(), or raise, within 15 s, and no process tagged with the case may survive a failed construction.',
     'note': '15 s is the hang bound; the server being killed at each step is represented by the peer dropping both connections.',
 }
@@ -146,7 +147,7 @@ CHECKS['C02'] = {
 CHECKS['C04'] = {
     'engine': 'OS', 'level': 'exploration', 'design_ref': 'DESIGN.md 3.5, 4 (C04)',
     'technique': 'property-based testing over generated call histories (wait/terminate/is_alive/close x timeouts x force) on cooperative, exception-swallowing, sleeping, GIL-holding, SIGSTOPped and lingering children and on a remote host that vanished; time-bound + OS-liveness oracle',
-    'text': 'Real workers run one of nine behaviours (the last one against a remote host played by the harness that resets / closes / silences its control connection and goes silent on the data connection); a generated history of up to four calls is applied and every call is judged: bounded duration '
+    'text': 'Real workers run one of ten behaviours (incl. a child stopped half way through sending a result bigger than the pipe buffer, a stopped child that is continued between or during calls, and one against a remote host played by the harness that resets / closes / silences its control connection and goes silent on the data connection); a generated history of up to four calls is applied and every call is judged: bounded duration '
             '(3*timeouts + 10 s), True only if the worker and its child pid are gone, immediate True on dead / finished / not-run workers, forced terminate of '
             'process/remote children always succeeds, False only while the child exists, and no signal to the caller.',
     'note': 'This is the one property where wall-clock is the verdict; the bound only separates bounded from blocked. Thread kinds are limited to cooperative/swallowing targets with force=False. One open finding (host silent on both connections).',
@@ -156,7 +157,7 @@ CHECKS['C05'] = {
     'technique': 'model-based property testing: generated operation sequences (enqueue / next_result / call / close / wait / late enqueue / read past end) on real persistent workers checked step by step against a 15-line reference model of the merge rule and the result stream',
     'text': 'Persistent thread/process/remote workers with generated list-or-tuple defaults and kwargs run an argument-echoing, argument-mutating target; every value '
             'read is compared with the reference model on pristine deep copies, the stream after wait() must be exactly the remaining results then queue.Empty forever, '
-            'result == accepted == delivered, enqueue after close raises WorkerClosedError; gated schedules deliver the last result exactly before / after the k-th read and hold the child thread before _init_child() while the parent already closes / enqueues.',
+            'result == accepted == delivered, enqueue after close - or after the worker died on its own, observed through the OS only - raises WorkerClosedError; gated schedules deliver the last result exactly before / after the k-th read and hold the child thread before _init_child() while the parent already closes / enqueues.',
     'note': 'Op lists are interpreted against model preconditions (inapplicable ops are skipped) instead of Hypothesis rule-based machines, so a case is a plain replayable JSON list; wait() with unread 1 MiB results is excluded (documented deadlock).',
 }
 CHECKS['C17'] = {
@@ -165,12 +166,13 @@ CHECKS['C17'] = {
     'text': 'Each generated case drives a real persistent worker into a state, calls restart(timeout=0.5) up to three times and checks the new incarnation: alive, same '
             'name/userid/defaults, new id and old pid gone, call(x) returns the value for x (no stale result), counter restarts from zero; a thread worker stuck in an '
             'uncooperative target must raise RuntimeError and keep tracking its thread. Two more case kinds: Pool.restart_workers() over a pool that contains such an unstoppable worker (the pool must '
-            'still hold every worker afterwards), and restart() of a remote worker whose old forwarding thread is held while it forwards its last result (restart raises or the new stream never shows it).',
+            'still hold every worker afterwards), restart() of a remote worker whose old forwarding thread is held while it forwards its last result (restart raises or the new stream never shows it), '
+            'an unreadable result followed by a stuck input as pre-restart state, and an enumeration of the registry while the worker is down.',
     'note': 'States are reached with short sleeps; the oracle does not depend on them (every legal pre-state is accepted).',
 }
 CHECKS['C19'] = {
     'engine': 'OS', 'level': 'exploration', 'design_ref': 'DESIGN.md 4 (C19)',
-    'technique': 'model-based property testing: generated operation lists (create/release/terminate/restart/concurrent active_children() spelled through Worker, a subclass or an instance/autoclose blocks/creation bursts/running workers the caller keeps no reference to) against the model set of live workers, plus weak-reference retention check',
+    'technique': 'model-based property testing: generated operation lists (create/release/terminate/restart/concurrent active_children() spelled through Worker, a subclass or an instance/autoclose blocks/creation bursts/running workers the caller keeps no reference to/an exception surfacing inside is_alive() during the enumeration/a process child that dies before reporting its identity) against the model set of live workers, plus weak-reference retention check',
     'text': 'All six classes are created, finished, terminated and restarted in generated order; every active_children() call (also from 2-3 threads at once) must yield '
             'exactly the workers whose is_alive() is True, once each; finished workers must become garbage after a further call; leaving autoclose_active_children() '
             'must leave every registered worker dead and its child process gone.',
@@ -195,7 +197,7 @@ CHECKS['C18'] = {
 CHECKS['C09'] = {
     'engine': 'POOLSIM', 'level': 'exploration', 'design_ref': 'DESIGN.md 3.2, 3.5, 4 (C09)',
     'technique': 'property-based testing over pool histories: tape-scheduled simulated pools (runs / restart_workers / kills / add_worker between runs) with a per-run multiset and liveness oracle, plus generated histories on real mixed pools with a process-census oracle at pool exit',
-    'text': 'Bookkeeping part: thousands of multi-run histories on simulated workers (incl. dead workers that still report is_alive() for one more run) check that each run returns exactly its own inputs, that PoolError needs all '
+    'text': 'Bookkeeping part: thousands of multi-run histories on simulated workers (incl. dead workers that still report is_alive() for one more run, runs aborted by an exception from their input source, runs that start without any live worker) check that each run returns exactly its own inputs, that PoolError needs all '
             'workers dead also after restarts, that known-dead workers get no work and restarted ones do. OS part: real thread/process/remote pools with SIGKILLed, '
             'stuck, attached, failing-to-register workers and workers whose work failed during a run while their process lingers are left normally, by exception, close(), terminate() or a close() interrupted by KeyboardInterrupt inside the with-block under varied close_timeout/force, after which '
             'no process of the pool may survive (unless forced termination was disabled and a worker is stuck).',
